@@ -625,6 +625,58 @@ type xIn struct {
 	Want      string   `json:"want,omitempty"`
 }
 
+// xSchedule: the script of replies a peer plays back to the query with ID qid:
+// up to four replies with other IDs (random, qid+1, qid^0x100), then nothing / an
+// undecodable one / a short one / the matching reply (possibly followed by a stale
+// one and a duplicate); one time in eight a reply longer than the receive buffer
+// comes first. Used for every exchange entry point (runExchange, entrypoints.go).
+func xSchedule(r *Rng, qid uint16) [][]byte {
+	// the script of replies
+	var reps [][]byte
+	nf := r.Intn(5)
+	for i := 0; i < nf; i++ {
+		id := uint16(r.Next())
+		switch r.Intn(6) {
+		case 0:
+			id = qid + 1
+		case 1:
+			id = qid ^ 0x100
+		}
+		if id == qid {
+			id++
+		}
+		b, _ := mkReply(id, "x.example.", r).Pack()
+		reps = append(reps, b)
+	}
+	kind := r.Intn(8)
+	switch kind {
+	case 0: // nothing matches
+	case 1: // undecodable datagram somewhere
+		b, _ := mkReply(qid, "x.example.", r).Pack()
+		b = append(b[:12], 0xc0, 0x0c, 0, 1, 0, 1) // pointer loop
+		b[5] = 1
+		reps = append(reps, b)
+	case 2: // short datagram / frame
+		reps = append(reps, r.Bytes(r.Intn(12)))
+	default:
+		b, _ := mkReply(qid, "x.example.", r).Pack()
+		reps = append(reps, b)
+		if r.Bool() { // duplicates / stale replies after the real one
+			b2, _ := mkReply(uint16(r.Next()), "x.example.", r).Pack()
+			reps = append(reps, b2, b)
+		}
+	}
+	if kind == 7 { // a reply longer than the receive buffer
+		m := mkReply(qid, "x.example.", r)
+		for i := 0; i < 40; i++ {
+			m.Answer = append(m.Answer, &dns.A{Hdr: dns.RR_Header{Name: "x.example.", Rrtype: dns.TypeA, Class: 1}, A: net.IPv4(10, 0, 0, byte(i))})
+		}
+		b, _ := m.Pack()
+		reps = append([][]byte{b}, reps...)
+	}
+	return reps
+}
+
 func runExchange(r *Rng, tier string) {
 	rounds := 220
 	if tier == "thorough" {
@@ -636,49 +688,7 @@ func runExchange(r *Rng, tier string) {
 		q.SetQuestion("x.example.", dns.TypeA)
 		q.Id = qid
 		qb, _ := q.Pack()
-		// the script of replies
-		var reps [][]byte
-		nf := r.Intn(5)
-		for i := 0; i < nf; i++ {
-			id := uint16(r.Next())
-			switch r.Intn(6) {
-			case 0:
-				id = qid + 1
-			case 1:
-				id = qid ^ 0x100
-			}
-			if id == qid {
-				id++
-			}
-			b, _ := mkReply(id, "x.example.", r).Pack()
-			reps = append(reps, b)
-		}
-		kind := r.Intn(8)
-		switch kind {
-		case 0: // nothing matches
-		case 1: // undecodable datagram somewhere
-			b, _ := mkReply(qid, "x.example.", r).Pack()
-			b = append(b[:12], 0xc0, 0x0c, 0, 1, 0, 1) // pointer loop
-			b[5] = 1
-			reps = append(reps, b)
-		case 2: // short datagram / frame
-			reps = append(reps, r.Bytes(r.Intn(12)))
-		default:
-			b, _ := mkReply(qid, "x.example.", r).Pack()
-			reps = append(reps, b)
-			if r.Bool() { // duplicates / stale replies after the real one
-				b2, _ := mkReply(uint16(r.Next()), "x.example.", r).Pack()
-				reps = append(reps, b2, b)
-			}
-		}
-		if kind == 7 { // a reply longer than the receive buffer
-			m := mkReply(qid, "x.example.", r)
-			for i := 0; i < 40; i++ {
-				m.Answer = append(m.Answer, &dns.A{Hdr: dns.RR_Header{Name: "x.example.", Rrtype: dns.TypeA, Class: 1}, A: net.IPv4(10, 0, 0, byte(i))})
-			}
-			b, _ := m.Pack()
-			reps = append([][]byte{b}, reps...)
-		}
+		reps := xSchedule(r, qid)
 		var repHex []string
 		for _, b := range reps {
 			repHex = append(repHex, Hx(b))
